@@ -6,6 +6,8 @@ package main
 import (
 	"go/token"
 	"go/types"
+	"math/big"
+	"strings"
 
 	"golang.org/x/tools/go/ssa"
 )
@@ -97,6 +99,12 @@ func (vc *VC) stdlibModel(name string, c *ssa.CallCommon, args []Val, st *State,
 		vc.assume("assumed contract: hex.Decode writes at most len(src)/2 bytes into dst (panics if dst is shorter); err == nil implies n == len(src)/2 and len(src) even")
 		return Val{tuple: []Val{{t: n, typ: types.Typ[types.Int]}, {t: e, typ: rt.(*types.Tuple).At(1).Type()}}, typ: rt}, true
 	}
+	if r, ok := vc.binaryModel(name, args, st, reach, rt, pos); ok {
+		return r, true
+	}
+	if name == "strconv.AppendInt" || name == "strconv.AppendUint" {
+		return vc.appendIntModel(args, st, reach, rt), true
+	}
 	if recvOnly[name] && len(args) > 0 {
 		vc.assume("assumed frame: " + name + " touches only its receiver object and does not panic")
 		lv := vc.lvOf(args[0])
@@ -106,4 +114,108 @@ func (vc *VC) stdlibModel(name string, c *ssa.CallCommon, args []Val, st *State,
 		return vc.freshTyped(st, "call", rt, reach), true
 	}
 	return Val{}, false
+}
+
+// binaryModel: encoding/binary byte-order methods. UintN(b) panics unless len(b) >= N/8 and is the
+// little/big-endian value of the first N/8 bytes; PutUintN(b, v) panics unless len(b) >= N/8 and
+// writes exactly those bytes.
+func (vc *VC) binaryModel(name string, args []Val, st *State, reach Term, rt types.Type, pos token.Pos) (Val, bool) {
+	var bigEnd bool
+	switch {
+	case strings.HasPrefix(name, "(encoding/binary.littleEndian)."):
+	case strings.HasPrefix(name, "(encoding/binary.bigEndian)."):
+		bigEnd = true
+	default:
+		return Val{}, false
+	}
+	m := name[strings.LastIndex(name, ".")+1:]
+	put := strings.HasPrefix(m, "Put")
+	var n int
+	switch strings.TrimPrefix(m, "Put") {
+	case "Uint16":
+		n = 2
+	case "Uint32":
+		n = 4
+	case "Uint64":
+		n = 8
+	default:
+		return Val{}, false
+	}
+	// args[0] is the (empty struct) receiver
+	b := args[1].t
+	vc.oblige("safe:index", "binary."+m, reach, app(">=", slLen(b), num(int64(n))), pos, vc.construct(pos))
+	hn, sort := vc.memName(types.Typ[types.Uint8])
+	h := vc.heapGet(st, hn, sort)
+	arr := app("select", h, slRef(b))
+	weight := func(i int) *big.Int {
+		k := i
+		if bigEnd {
+			k = n - 1 - i
+		}
+		return pow2(int64(8 * k))
+	}
+	if !put {
+		var sum []Term
+		for i := 0; i < n; i++ {
+			sum = append(sum, app("*", bigNum(weight(i)), app("select", arr, add(slOff(b), num(int64(i))))))
+		}
+		vc.assume("assumed contract: encoding/binary " + m + " reads the first bytes of its argument in the stated byte order and panics if it is shorter")
+		return Val{t: vc.define("bin", "Int", app("+", sum...)), typ: rt}, true
+	}
+	v := args[2].t
+	narr := arr
+	// the bytes of v: fresh constants b_i in [0,255] with v == sum b_i * 256^k (they exist and are unique for
+	// 0 <= v < 2^N, which the unsigned type of v guarantees; stated this way the solver needs no div/mod reasoning)
+	var sum []Term
+	var rng []Term
+	for i := 0; i < n; i++ {
+		byteI := vc.freshConst("byte", "Int")
+		rng = append(rng, app("<=", "0", byteI), app("<=", byteI, "255"))
+		sum = append(sum, app("*", bigNum(weight(i)), byteI))
+		narr = app("store", narr, add(slOff(b), num(int64(i))), byteI)
+	}
+	vc.addAssume(reach, and(append(rng, eq(v, app("+", sum...)))...))
+	vc.heapSet(st, hn, sort, app("store", h, slRef(b), narr))
+	vc.assume("assumed contract: encoding/binary " + m + " writes the bytes of its argument in the stated byte order and panics if the destination is shorter")
+	return Val{typ: rt}, true
+}
+
+// appendIntModel: strconv.AppendInt(dst, i, base) returns dst followed by the text of i. For base 10
+// the number of characters is the number of decimal digits of |i| (plus one for a minus sign) and every
+// character is a digit or '-'; the characters are written into dst's spare capacity when it suffices
+// (same backing array, nothing else changes), otherwise into a new array.
+func (vc *VC) appendIntModel(args []Val, st *State, reach Term, rt types.Type) Val {
+	dst, v, base := args[0].t, args[1].t, args[2].t
+	abs := vc.define("absv", "Int", ite(app("<", v, "0"), app("-", v), v))
+	nd := "20"
+	p := new(big.Int).Exp(big.NewInt(10), big.NewInt(19), nil)
+	for k := 19; k >= 1; k-- {
+		nd = ite(app("<", abs, bigNum(p)), num(int64(k)), nd)
+		p = new(big.Int).Div(p, big.NewInt(10))
+	}
+	n := vc.freshConst("nchars", "Int")
+	vc.addAssume("true", and(app("<=", "1", n), app("<=", n, "65"),
+		implies(eq(base, "10"), eq(n, app("+", nd, ite(app("<", v, "0"), "1", "0"))))))
+	hn, sort := vc.memName(types.Typ[types.Uint8])
+	h := vc.heapGet(st, hn, sort)
+	start := vc.define("appstart", "Int", add(slOff(dst), slLen(dst)))
+	inPlace := vc.define("inplace", "Bool", app("<=", app("+", slLen(dst), n), slCap(dst)))
+	arr := vc.freshConst("apparr", "(Array Int Int)")
+	fresh := vc.freshRef(st, "appint.ref")
+	oldArr := app("select", h, slRef(dst))
+	vc.quantCtx = true
+	// in place: bytes outside [start, start+n) unchanged; new array: prefix copied
+	vc.addAssume("true", "(forall ((j Int)) (! (and (<= 0 (select "+arr+" j) 255)"+
+		" (=> (and "+inPlace+" (or (< j "+start+") (>= j (+ "+start+" "+n+")))) (= (select "+arr+" j) (select "+oldArr+" j)))"+
+		" (=> (and (not "+inPlace+") (<= 0 j) (< j "+slLen(dst)+")) (= (select "+arr+" j) (select "+oldArr+" (+ "+slOff(dst)+" j))))"+
+		" (=> (and "+inPlace+" (<= "+start+" j) (< j (+ "+start+" "+n+")) (= "+base+" 10)) (or (= (select "+arr+" j) 45) (and (<= 48 (select "+arr+" j)) (<= (select "+arr+" j) 57))))"+
+		") :pattern ((select "+arr+" j))))")
+	ncap := vc.freshConst("appcap", "Int")
+	vc.addAssume("true", and(app("<=", app("+", slLen(dst), n), ncap), app("<=", ncap, maxLen)))
+	res := vc.define("appint", "Slice", ite(inPlace,
+		app("mkslice", slRef(dst), slOff(dst), app("+", slLen(dst), n), slCap(dst)),
+		app("mkslice", fresh, "0", app("+", slLen(dst), n), ncap)))
+	vc.heapSet(st, hn, sort, ite(inPlace, app("store", h, slRef(dst), arr), app("store", h, fresh, arr)))
+	vc.assume("assumed contract: strconv.AppendInt(dst, i, 10) appends the decimal digits of i (count = number of decimal digits, plus a sign), in place when cap(dst) suffices, else into a new array; it touches nothing else")
+	return Val{t: res, typ: rt}
 }
